@@ -20,7 +20,9 @@
     4  `real_false_same_<rule>`        (a rule that answers `false` leaves the state alone)
     5  `Frame`, `TokSpec`, the scans
     6  `block_rule_progress_<rule>`, `block_rule_frame_<rule>`
-    7  `tokenize_progress` (`tokLoop_spec`, `engine_spec`)
+    7  `tokenize_progress` (`tokLoop_spec`, `tokenize_spec`)
+    8  non-vacuity examples
+    9  C11: `fence_verbatim`, `indented_verbatim`
 -/
 import MdIt.Model.Block
 import MdIt.Props.C10
@@ -1577,5 +1579,566 @@ example : verdictLine (listRule (tokenize exCfg 8) (testRules exCfg 8) 9
 example : lineOf (tokenize exCfg 30 (BState.fresh exDoc .root [])) = some 16 := by decide +kernel
 example : (BState.fresh exDoc .root []).lineMax = 16 := by decide +kernel
 end examples
+
+/-! ## 9. C11: fenced and indented code is copied verbatim -/
+
+open MdIt.Lines (NoTerm lead)
+
+/-- a document given by its lines: joined by LF, no final terminator -/
+abbrev docOf (Ls : List (List Char)) : List Char := Lines.joinLines false Ls
+
+theorem pieces_docOf : ∀ (Ls : List (List Char)), Ls ≠ [] → (∀ l ∈ Ls, NoTerm l) →
+    Lines.pieces (docOf Ls) = Ls
+  | [], h, _ => absurd rfl h
+  | [x], _, hn => by
+    have := Lines.pieces_noTerm_append x (hn x (by simp)) []
+    simp only [List.append_nil] at this
+    simp [docOf, Lines.joinLines, this, Lines.pieces_nil, Lines.consHead_foldr]
+  | x :: y :: r, _, hn => by
+    have ih := pieces_docOf (y :: r) (by simp) (fun l hl => hn l (List.mem_cons_of_mem _ hl))
+    have := Lines.pieces_noTerm_append x (hn x (by simp)) ('\n' :: docOf (y :: r))
+    simp only [docOf, Lines.joinLines] at this ih ⊢
+    rw [this, Lines.pieces_lf, ih, Lines.consHead_foldr]
+    simp
+
+theorem dropFinalEmpty_of_last : ∀ (Ls : List (List Char)), Ls.getLast? ≠ some [] →
+    Lines.dropFinalEmpty Ls = Ls
+  | [], _ => rfl
+  | [p], _ => rfl
+  | p :: q :: r, h => by
+    have ih := dropFinalEmpty_of_last (q :: r) (by simpa [List.getLast?_cons_cons] using h)
+    simp only [Lines.dropFinalEmpty]
+    split
+    · rename_i hc
+      obtain ⟨rfl, rfl⟩ := hc
+      simp [List.getLast?_cons_cons] at h
+    · rw [ih]
+
+/-- the line table of a document whose last line is not empty: one entry per line, showing
+    (leading blanks, rest, tab-expanded width of the blanks) -/
+theorem docOf_shows (Ls : List (List Char)) (hne : Ls ≠ []) (hn : ∀ l ∈ Ls, NoTerm l)
+    (hlast : Ls.getLast? ≠ some []) :
+    (Lines.splitLines (docOf Ls)).length = Ls.length ∧
+    ∀ j (h : j < Ls.length), ∃ o, (Lines.splitLines (docOf Ls))[j]? = some o ∧
+      Lines.Shows (docOf Ls) o (lead Ls[j], Ls[j].dropWhile Lines.isBlank,
+        (Lines.indentWidth (lead Ls[j]) : Int)) := by
+  have hspec : Lines.specLines (docOf Ls) = Ls.map Lines.decompose := by
+    unfold Lines.specLines
+    rw [pieces_docOf Ls hne hn, dropFinalEmpty_of_last Ls hlast]
+  have hvs : Lines.vsOf (docOf Ls) = Ls.map fun l => (lead l, l.dropWhile Lines.isBlank,
+      (Lines.indentWidth (lead l) : Int)) := by
+    unfold Lines.vsOf
+    rw [hspec, List.map_map]
+    rfl
+  have hlen := Lines.vsOf_length (docOf Ls)
+  rw [hvs] at hlen
+  refine ⟨by simpa using hlen.symm, ?_⟩
+  intro j hj
+  obtain ⟨o, ho, hs⟩ := Lines.split_shows (docOf Ls) j (by rw [hvs]; simpa using hj)
+  refine ⟨o, ho, ?_⟩
+  simp only [hvs, List.getElem_map] at hs
+  exact hs
+
+/-- a state over the document `docOf Ls` with the table of `BlockState::new` and `blk_indent = 0` -/
+structure OnDoc (Ls : List (List Char)) (s : BState) : Prop where
+  src : s.src = docOf Ls
+  offs : s.offs = Lines.splitLines (docOf Ls)
+  blk : s.blkIndent = 0
+  ne : Ls ≠ []
+  noTerm : ∀ l ∈ Ls, NoTerm l
+  last : Ls.getLast? ≠ some []
+
+theorem OnDoc.fresh {Ls : List (List Char)} (hne : Ls ≠ []) (hn : ∀ l ∈ Ls, NoTerm l)
+    (hlast : Ls.getLast? ≠ some []) (k : Kind) (refs : Refs.RefMap) :
+    OnDoc Ls (BState.fresh (docOf Ls) k refs) := ⟨rfl, rfl, rfl, hne, hn, hlast⟩
+
+theorem OnDoc.entry {Ls : List (List Char)} {s : BState} (h : OnDoc Ls s) {j : Nat} (hj : j < Ls.length) :
+    ∃ o, s.offs[j]? = some o ∧ Lines.Shows s.src o (lead Ls[j], Ls[j].dropWhile Lines.isBlank,
+      (Lines.indentWidth (lead Ls[j]) : Int)) := by
+  rw [h.src, h.offs]
+  exact (docOf_shows Ls h.ne h.noTerm h.last).2 j hj
+
+theorem OnDoc.lineIndent {Ls : List (List Char)} {s : BState} (h : OnDoc Ls s) {j : Nat} (hj : j < Ls.length) :
+    s.lineIndent j = .ok (Lines.indentWidth (lead Ls[j]) : Int) := by
+  obtain ⟨o, ho, _, _, hi⟩ := h.entry hj
+  simp [BState.lineIndent, Lines.lineIndent, ho, liftL, h.blk, hi]
+
+theorem OnDoc.getLine {Ls : List (List Char)} {s : BState} (h : OnDoc Ls s) {j : Nat} (hj : j < Ls.length) :
+    s.getLine j = .ok (Ls[j].dropWhile Lines.isBlank) := by
+  obtain ⟨o, ho, _, ht, _⟩ := h.entry hj
+  unfold Lines.lineText at ht
+  simp [BState.getLine, Lines.getLine, ho, liftL, ht]
+
+theorem OnDoc.isEmpty {Ls : List (List Char)} {s : BState} (h : OnDoc Ls s) {j : Nat} (hj : j < Ls.length) :
+    s.isEmpty j = decide (Ls[j].dropWhile Lines.isBlank = []) := by
+  obtain ⟨o, ho, _, ht, _⟩ := h.entry hj
+  have := Lines.is_empty_of_view ht
+  simp only [BState.isEmpty, Lines.isEmpty, ho]
+  by_cases he : Ls[j].dropWhile Lines.isBlank = []
+  · simp [he, this.mpr he]
+  · simp only [he, decide_false, decide_eq_false_iff_not]
+    exact fun hc => he (this.mp hc)
+
+theorem OnDoc.length {Ls : List (List Char)} {s : BState} (h : OnDoc Ls s) : s.offs.length = Ls.length := by
+  rw [h.offs]; exact (docOf_shows Ls h.ne h.noTerm h.last).1
+
+/-- `get_lines` on such a state: per line the piece computed from its view, joined by LF -/
+theorem OnDoc.getLines {Ls : List (List Char)} {s : BState} (h : OnDoc Ls s) (b e indent : Nat) (keep : Bool)
+    (hbe : b ≤ e) (he : e ≤ Ls.length) :
+    ∃ m, s.getLines b e indent keep = .ok (Lines.joinLines keep
+      (((Ls.drop b).take (e - b)).map fun l => Lines.viewPiece indent
+        (lead l, l.dropWhile Lines.isBlank, (Lines.indentWidth (lead l) : Int))), m) := by
+  let vs := ((Ls.drop b).take (e - b)).map fun l =>
+    ((lead l, l.dropWhile Lines.isBlank, (Lines.indentWidth (lead l) : Int)) : List Char × List Char × Int)
+  have hvl : vs.length = e - b := by simp [vs]; omega
+  obtain ⟨m, hm⟩ := Lines.get_lines_lf s.src s.offs b indent keep vs (by
+    intro j hj
+    rw [hvl] at hj
+    obtain ⟨o, ho, hs⟩ := h.entry (j := b + j) (by omega)
+    refine ⟨o, ho, ?_⟩
+    simpa [vs, List.getElem_take, List.getElem_drop] using hs)
+  rw [hvl, show b + (e - b) = e by omega] at hm
+  refine ⟨m, ?_⟩
+  simp only [BState.getLines, hm, liftL, vs, List.map_map]
+  rfl
+
+/-- asking for no de-indentation (`indent = 0`) copies a line whole: blanks (tabs included) and text -/
+theorem viewPiece_zero (l : List Char) :
+    Lines.viewPiece 0 (lead l, l.dropWhile Lines.isBlank, (Lines.indentWidth (lead l) : Int)) = l := by
+  have h := Lines.cut_full_indent (lead l)
+  have e : Lines.usizeAsI32 0 = 0 := by decide
+  simp only [Lines.viewPiece, e, Int.sub_zero, h, List.replicate_zero, List.nil_append]
+  simp [Lines.dropB_of_dropBytes (Lines.dropBytes_zero _), Lines.lead_append_rest]
+
+/-- the fence line `mⁿ` -/
+abbrev fenceLine (m : Char) (n : Nat) : List Char := List.replicate n m
+
+/-- `l` would close a fence opened by `mⁿ`: after at most three columns of blanks, at least `n`
+    markers, then blanks only -/
+def closes (m : Char) (n : Nat) (l : List Char) : Bool :=
+  match l.dropWhile Lines.isBlank with
+  | [] => false
+  | c :: rest =>
+    decide (c = m) && decide (Lines.indentWidth (lead l) < 4) && decide (n ≤ 1 + countRun m rest) &&
+      (rest.drop (countRun m rest)).all isBlank
+
+theorem countRun_replicate (m : Char) (k : Nat) : countRun m (List.replicate k m) = k := by
+  induction k with
+  | zero => rfl
+  | succ k ih => simp [List.replicate_succ, countRun, ih]; omega
+
+theorem joinLines_true (ps : List (List Char)) :
+    Lines.joinLines true ps = ps.flatMap (· ++ ['\n']) := by
+  induction ps with
+  | nil => rfl
+  | cons x r ih =>
+    cases r with
+    | nil => simp [Lines.joinLines]
+    | cons y r' => simp only [Lines.joinLines, List.flatMap_cons] at ih ⊢; rw [ih]; simp
+
+theorem slice_end (l : List Char) : Lines.slice l (Lines.byteLen l) (Lines.byteLen l) = .ok [] :=
+  Lines.slice_eq_ok_iff.mpr ⟨l, [], by simp, rfl, by simp⟩
+
+theorem lead_nonblank_cons {c : Char} (l : List Char) (hc : Lines.isBlank c = false) :
+    lead (c :: l) = [] ∧ (c :: l).dropWhile Lines.isBlank = c :: l := by
+  simp [lead, List.takeWhile, List.dropWhile, hc]
+
+section fence
+variable {m : Char} {n : Nat} {T : List (List Char)} {s : BState}
+
+theorem fenceScan_verbatim (hm : m = '`' ∨ m = '~') (hn : 3 ≤ n)
+    (hs : OnDoc (fenceLine m n :: T ++ [fenceLine m n]) s) (hmax : s.lineMax = T.length + 2)
+    (hclose : ∀ l ∈ T, closes m n l = false) :
+    ∀ (d j : Nat), j + d = T.length → fenceScan s m n j = .ok (T.length + 1, true) := by
+  have hmb : Lines.isBlank m = false := by rcases hm with rfl | rfl <;> decide
+  intro d
+  induction d with
+  | zero =>
+    intro j hj
+    have hj' : j + 1 < (fenceLine m n :: T ++ [fenceLine m n]).length := by simp; omega
+    have hL : (fenceLine m n :: T ++ [fenceLine m n])[j + 1] = fenceLine m n := by
+      simp [show j = T.length by omega]
+    obtain ⟨k, rfl⟩ : ∃ k, n = k + 1 := ⟨n - 1, by omega⟩
+    have h1 := hs.getLine hj'
+    have h2 := hs.lineIndent hj'
+    rw [hL] at h1 h2
+    simp only [fenceLine, List.replicate_succ] at h1 h2
+    rw [(lead_nonblank_cons _ hmb).2] at h1
+    rw [(lead_nonblank_cons _ hmb).1] at h2
+    rw [fenceScan]
+    simp only [hmax, h1, h2]
+    rw [if_neg (by omega)]
+    simp [countRun_replicate, Lines.indentWidth, Lines.widthFrom]
+    rw [if_neg (by omega)]
+    simp; omega
+  | succ d ih =>
+    intro j hj
+    have hj' : j + 1 < (fenceLine m n :: T ++ [fenceLine m n]).length := by simp; omega
+    have hjT : j < T.length := by omega
+    have hL : (fenceLine m n :: T ++ [fenceLine m n])[j + 1] = T[j] := by
+      simp [List.getElem_append_left hjT]
+    have h1 := hs.getLine hj'
+    have h2 := hs.lineIndent hj'
+    rw [hL] at h1 h2
+    have hc := hclose T[j] (List.getElem_mem hjT)
+    rw [fenceScan]
+    simp only [hmax, h1, h2]
+    rw [if_neg (by omega)]
+    have hrec := ih (j + 1) (by omega)
+    unfold closes at hc
+    cases hd : T[j].dropWhile Lines.isBlank with
+    | nil => simp [hrec]
+    | cons c rest =>
+      rw [hd] at hc
+      simp only [Bool.and_eq_false_iff, decide_eq_false_iff_not] at hc
+      have hnn : ¬ ((Lines.indentWidth (lead T[j]) : Int) < 0) := by omega
+      simp only [hnn, and_false, if_false, hrec]
+      by_cases hcm : c = m
+      · subst hcm
+        simp only [ne_eq, not_true_eq_false, if_false]
+        split
+        · rfl
+        · split
+          · rfl
+          · rename_i h4 hlen
+            rcases hc with ((hc | hc) | hc) | hc
+            · exact absurd rfl hc
+            · exact absurd (by omega) hc
+            · exact absurd (by omega) hc
+            · simp [hc]
+      · simp [hcm]
+end fence
+
+theorem getLast?_snoc {α : Type} (l : List α) (a : α) : (l ++ [a]).getLast? = some a := by
+  induction l with
+  | nil => rfl
+  | cons x r ih =>
+    cases r with
+    | nil => rfl
+    | cons y r' => simp only [List.cons_append, List.getLast?_cons_cons] at ih ⊢; exact ih
+
+theorem noTerm_fenceLine {m : Char} (hm : m = '`' ∨ m = '~') (n : Nat) : NoTerm (fenceLine m n) := by
+  intro c hc
+  have := (List.mem_replicate.mp hc).2
+  subst this
+  rcases hm with rfl | rfl <;> decide
+
+theorem byteLen_fenceLine {m : Char} (hm : m = '`' ∨ m = '~') (n : Nat) : Lines.byteLen (fenceLine m n) = n := by
+  have h1 : m.utf8Size = 1 := by rcases hm with rfl | rfl <;> decide
+  induction n with
+  | zero => rfl
+  | succ k ih => simp only [fenceLine, List.replicate_succ, Lines.byteLen_cons, h1] at ih ⊢; omega
+
+/-- **`fence_verbatim`.**  `T` is any list of terminator-free lines none of which would close the
+    fence (`closes m n l = false`: no line of `T` consists of at most three columns of blanks, `n` or
+    more markers and then blanks only).  On the document `mⁿ`, `T`, `mⁿ` (one per line) the fence
+    rule answers `true`, consumes every line, and the content of the node is `T` — every line whole,
+    leading blanks and tabs included, each followed by one LF (`""` for empty `T`); the info string
+    is empty. -/
+theorem fence_verbatim (m : Char) (hm : m = '`' ∨ m = '~') (n : Nat) (hn : 3 ≤ n) (T : List (List Char))
+    (hT : ∀ l ∈ T, NoTerm l) (hclose : ∀ l ∈ T, closes m n l = false) (k : Kind) (refs : Refs.RefMap) :
+    ∃ s' r, fenceRule (BState.fresh (docOf (fenceLine m n :: T ++ [fenceLine m n])) k refs) false
+        = .ok (true, s') ∧ s'.line = T.length + 2 ∧ s'.line = s'.lineMax ∧
+      s'.children = [⟨.codeFence [] m n (T.flatMap (· ++ ['\n'])), some r, []⟩] := by
+  have hmb : Lines.isBlank m = false := by rcases hm with rfl | rfl <;> decide
+  obtain ⟨Ls, hLs⟩ : ∃ Ls, Ls = fenceLine m n :: T ++ [fenceLine m n] := ⟨_, rfl⟩
+  rw [← hLs]
+  have hne : Ls ≠ [] := by simp [hLs]
+  have hnt : ∀ l ∈ Ls, NoTerm l := by
+    intro l hl
+    simp only [hLs, List.cons_append, List.mem_cons, List.mem_append, List.mem_nil_iff, or_false] at hl
+    rcases hl with rfl | hl | rfl
+    · exact noTerm_fenceLine hm n
+    · exact hT l hl
+    · exact noTerm_fenceLine hm n
+  have hlast : Ls.getLast? ≠ some [] := by
+    have : Ls.getLast? = some (fenceLine m n) := by
+      rw [hLs, show fenceLine m n :: T ++ [fenceLine m n] = (fenceLine m n :: T) ++ [fenceLine m n] by simp]
+      exact getLast?_snoc _ _
+    rw [this]
+    intro hc
+    have := congrArg List.length (Option.some.inj hc)
+    simp at this; omega
+  obtain ⟨s, hs⟩ : ∃ s, s = BState.fresh (docOf Ls) k refs := ⟨_, rfl⟩
+  rw [← hs]
+  have hon : OnDoc Ls s := by rw [hs]; exact OnDoc.fresh hne hnt hlast k refs
+  have hlen : Ls.length = T.length + 2 := by simp [hLs]
+  have hmax : s.lineMax = T.length + 2 := by
+    have := hon.length
+    simp only [hs, BState.fresh] at this ⊢
+    omega
+  have h0 : 0 < Ls.length := by omega
+  have hL0 : Ls[0] = fenceLine m n := by simp [hLs]
+  obtain ⟨j, rfl⟩ : ∃ j, n = j + 1 := ⟨n - 1, by omega⟩
+  have hgl := hon.getLine h0
+  have hli := hon.lineIndent h0
+  rw [hL0] at hgl hli
+  simp only [fenceLine, List.replicate_succ] at hgl hli
+  rw [(lead_nonblank_cons _ hmb).2] at hgl
+  rw [(lead_nonblank_cons _ hmb).1] at hli
+  have hscan := fenceScan_verbatim hm hn (hLs ▸ hon) hmax hclose T.length 0 (by omega)
+  obtain ⟨o0, ho0, _, _, hi0⟩ := hon.entry h0
+  rw [hL0] at hi0
+  simp only [fenceLine, List.replicate_succ, (lead_nonblank_cons _ hmb).1] at hi0
+  have hoff : s.off 0 = .ok o0 := by simp [BState.off, ho0]
+  obtain ⟨mp, hget⟩ := hon.getLines 1 (T.length + 1) 0 true (by omega) (by omega)
+  have hpieces : ((Ls.drop 1).take (T.length + 1 - 1)) = T := by simp [hLs]
+  rw [hpieces] at hget
+  simp only [viewPiece_zero, List.map_id', joinLines_true] at hget
+  have hlast' : T.length + 1 < Ls.length := by omega
+  obtain ⟨oe, hoe, _⟩ := hon.entry hlast'
+  have hmap : s.getMap 0 (T.length + 1) = .ok (o0.firstNonspace, oe.lineEnd) := by
+    simp [BState.getMap, Lines.getMap, ho0, hoe, liftL]
+  have hbl : Lines.byteLen (m :: List.replicate j m) = j + 1 := by
+    have := byteLen_fenceLine hm (j + 1)
+    simpa [fenceLine, List.replicate_succ] using this
+  have hsl : liftL (Lines.slice (m :: List.replicate j m) (1 + countRun m (List.replicate j m))
+      (Lines.byteLen (m :: List.replicate j m))) = .ok [] := by
+    rw [countRun_replicate, hbl, show 1 + j = j + 1 by omega]
+    have := slice_end (m :: List.replicate j m)
+    rw [hbl] at this
+    simp [this, liftL]
+  have hs0 : s.line = 0 := by rw [hs]; rfl
+  have hrule : fenceRule s false = .ok (true,
+      { s.push ⟨.codeFence [] m (j + 1) (T.flatMap (· ++ ['\n'])), some (o0.firstNonspace, oe.lineEnd), []⟩
+        with line := T.length + 1 + 1 }) := by
+    unfold fenceRule
+    simp only [hs0, hli, hgl, ok_bind]
+    rw [if_neg (by simp [Lines.indentWidth, Lines.widthFrom])]
+    have hcr : 1 + countRun m (List.replicate j m) = j + 1 := by rw [countRun_replicate]; omega
+    rw [hcr] at hsl ⊢
+    rw [if_neg (by rcases hm with rfl | rfl <;> simp)]
+    rw [if_neg (by omega)]
+    simp only [hsl, ok_bind]
+    rw [if_neg (by simp)]
+    simp only [Bool.false_eq_true, if_false, hscan, ok_bind, hoff, hi0, i32AsUsize, Lines.indentWidth,
+      Lines.widthFrom, List.foldl_nil, show ((0 : Nat) : Int) ≥ 0 by omega, if_true, Int.toNat_natCast,
+      hget, psub, Nat.zero_le, Nat.sub_zero, hmap]
+    rfl
+  refine ⟨_, (o0.firstNonspace, oe.lineEnd), hrule, rfl, ?_, ?_⟩
+  · simp [BState.push, hmax]
+  · simp [BState.push, hs, BState.fresh]
+
+
+/-! ### indented code -/
+
+/-- four spaces -/
+abbrev four : List Char := [' ', ' ', ' ', ' ']
+
+theorem lead_four (l : List Char) : lead (four ++ l) = four ++ lead l := by
+  simp [lead, four, List.takeWhile, show Lines.isBlank ' ' = true by decide]
+
+theorem dropWhile_four (l : List Char) : (four ++ l).dropWhile Lines.isBlank = l.dropWhile Lines.isBlank := by
+  simp [four, List.dropWhile, show Lines.isBlank ' ' = true by decide]
+
+/-- asking to strip four columns from a line that starts with four spaces returns the rest of the
+    line whole (tabs in it are on tab stops: none is split) -/
+theorem viewPiece_four (l : List Char) :
+    Lines.viewPiece 4 (lead (four ++ l), (four ++ l).dropWhile Lines.isBlank,
+      (Lines.indentWidth (lead (four ++ l)) : Int)) = l := by
+  rw [lead_four, dropWhile_four]
+  have h := Lines.cut_four (lead l)
+  have e : Lines.usizeAsI32 4 = 4 := by decide
+  simp only [Lines.viewPiece, e]
+  rw [show four ++ lead l = [' ', ' ', ' ', ' '] ++ lead l from rfl, h]
+  have hd : Lines.dropBytes ([' ', ' ', ' ', ' '] ++ lead l) 4 = some (lead l) := by
+    have := Lines.dropBytes_append [' ', ' ', ' ', ' '] (lead l)
+    rwa [show Lines.byteLen [' ', ' ', ' ', ' '] = 4 by decide] at this
+  have hd' := Lines.dropB_of_dropBytes hd
+  simp only [List.cons_append, List.nil_append] at hd' ⊢
+  simp [hd', Lines.lead_append_rest]
+
+section code
+variable {T : List (List Char)} {s : BState}
+
+theorem codeScan_verbatim (hs : OnDoc (T.map (four ++ ·)) s) (hmax : s.lineMax = T.length)
+    (hlastT : ∀ h : 0 < T.length, (T[T.length - 1]'(by omega)).dropWhile Lines.isBlank ≠ []) :
+    ∀ (d j last : Nat), j + d = T.length → (d = 0 → last = T.length) →
+      codeScan s j last = .ok T.length := by
+  intro d
+  induction d with
+  | zero =>
+    intro j last hj hl
+    rw [codeScan, if_neg (by omega), hl rfl]
+  | succ d ih =>
+    intro j last hj hl
+    have hjT : j < T.length := by omega
+    have hj' : j < (T.map (four ++ ·)).length := by simpa using hjT
+    have hL : (T.map (four ++ ·))[j] = four ++ T[j] := by simp
+    have he := hs.isEmpty hj'
+    have hi := hs.lineIndent hj'
+    rw [hL, dropWhile_four] at he
+    rw [hL, lead_four] at hi
+    rw [codeScan, if_pos (by omega)]
+    by_cases hb : T[j].dropWhile Lines.isBlank = []
+    · rw [he]
+      simp only [hb, decide_true, if_true]
+      refine ih (j + 1) last (by omega) ?_
+      intro hd
+      exfalso
+      have : j = T.length - 1 := by omega
+      subst this
+      exact hlastT (by omega) hb
+    · rw [he]
+      simp only [hb, decide_false, Bool.false_eq_true, if_false, hi]
+      have hge : 4 ≤ Lines.indentWidth (four ++ lead T[j]) := by
+        rw [Lines.indentWidth_append]
+        exact Lines.widthFrom_ge _ _
+      rw [if_pos (by omega)]
+      exact ih (j + 1) (j + 1) (by omega) (fun _ => by omega)
+end code
+
+/-- **`indented_verbatim`.**  `T` is a non-empty list of terminator-free lines whose first and last
+    line are not blank.  On the document made of the lines of `T`, each behind four spaces, the
+    indented-code rule (at the start of the document) answers `true`, consumes every line, and the
+    content of the node is `T` joined by LF plus one final LF — interior blank lines, tabs and further
+    indentation included. -/
+theorem indented_verbatim (T : List (List Char)) (hne : T ≠ []) (hT : ∀ l ∈ T, NoTerm l)
+    (hfirst : ∀ h : 0 < T.length, T[0].dropWhile Lines.isBlank ≠ [])
+    (hlastT : ∀ h : 0 < T.length, (T[T.length - 1]'(by omega)).dropWhile Lines.isBlank ≠ [])
+    (k : Kind) (refs : Refs.RefMap) :
+    ∃ s' r, codeRule (BState.fresh (docOf (T.map (four ++ ·))) k refs) false = .ok (true, s') ∧
+      s'.line = T.length ∧ s'.line = s'.lineMax ∧
+      s'.children = [⟨.codeBlock (docOf T ++ ['\n']), some r, []⟩] := by
+  have hpos : 0 < T.length := List.length_pos_iff.mpr hne
+  obtain ⟨Ls, hLs⟩ : ∃ Ls, Ls = T.map (four ++ ·) := ⟨_, rfl⟩
+  rw [← hLs]
+  have hLne : Ls ≠ [] := by simp [hLs, hne]
+  have hnt : ∀ l ∈ Ls, NoTerm l := by
+    intro l hl
+    rw [hLs] at hl
+    obtain ⟨t, ht, rfl⟩ := List.mem_map.mp hl
+    intro c hc
+    rcases List.mem_append.mp hc with h | h
+    · simp [four] at h; subst h; decide
+    · exact hT t ht c h
+  have hlast : Ls.getLast? ≠ some [] := by
+    intro hc
+    have hm := List.mem_of_getLast? hc
+    rw [hLs] at hm
+    obtain ⟨t, _, ht⟩ := List.mem_map.mp hm
+    simp [four] at ht
+  obtain ⟨s, hs⟩ : ∃ s, s = BState.fresh (docOf Ls) k refs := ⟨_, rfl⟩
+  rw [← hs]
+  have hon : OnDoc Ls s := by rw [hs]; exact OnDoc.fresh hLne hnt hlast k refs
+  have hlen : Ls.length = T.length := by simp [hLs]
+  have holen := hon.length
+  have hmax : s.lineMax = T.length := by
+    simp only [hs, BState.fresh] at holen ⊢
+    omega
+  have h0 : 0 < Ls.length := by omega
+  have hL0 : Ls[0] = four ++ T[0] := by simp [hLs]
+  have hli := hon.lineIndent h0
+  rw [hL0, lead_four] at hli
+  have hge : 4 ≤ Lines.indentWidth (four ++ lead T[0]) := by
+    rw [Lines.indentWidth_append]; exact Lines.widthFrom_ge _ _
+  have hscan := codeScan_verbatim (hLs ▸ hon) hmax hlastT (T.length - 1) 1 1 (by omega) (by omega)
+  -- the lines read, with their entries
+  obtain ⟨ovs, hovs⟩ : ∃ ovs, ovs = s.offs.zip (Ls.map fun l =>
+    ((lead l, l.dropWhile Lines.isBlank, (Lines.indentWidth (lead l) : Int)) : List Char × List Char × Int)) := ⟨_, rfl⟩
+  have hol : ovs.length = T.length := by simp [hovs, holen, hlen]
+  have hov : ∀ j (h : j < ovs.length), s.offs[0 + j]? = some ovs[j].1 ∧ Lines.Shows s.src ovs[j].1 ovs[j].2 := by
+    intro j hj
+    have hjL : j < Ls.length := by omega
+    obtain ⟨o, ho, hsh⟩ := hon.entry hjL
+    have hjo : j < s.offs.length := by omega
+    have e1 : ovs[j] = (s.offs[j], (lead Ls[j], Ls[j].dropWhile Lines.isBlank,
+        (Lines.indentWidth (lead Ls[j]) : Int))) := by
+      simp [hovs, List.getElem_zip]
+    have e2 : s.offs[j] = o := by
+      have := List.getElem?_eq_getElem hjo
+      rw [ho] at this
+      exact (Option.some.inj this).symm
+    rw [e1, e2]
+    exact ⟨by simpa using ho, hsh⟩
+  obtain ⟨content, hgl, hcontent, _⟩ := Lines.get_lines_faithful s.src s.offs 0 4 false ovs hov
+  rw [Nat.zero_add, hol] at hgl
+  -- content
+  have hc : content = docOf T := by
+    rw [hcontent]
+    have : (ovs.map fun ov => Lines.viewPiece 4 ov.2) = T := by
+      apply List.ext_getElem (by simp [hol])
+      intro j h1 h2
+      have hjL : j < Ls.length := by omega
+      have hjo : j < s.offs.length := by omega
+      simp only [List.getElem_map, hovs, List.getElem_zip]
+      rw [show Ls[j] = four ++ T[j] by simp [hLs]]
+      exact viewPiece_four T[j]
+    rw [this]
+  -- the first mapping entry, the last line
+  obtain ⟨ov0, ovr, hcons⟩ : ∃ a r, ovs = a :: r := by
+    cases ovs with
+    | nil => simp at hol; omega
+    | cons a r => exact ⟨a, r, rfl⟩
+  have hov0 := hov 0 (by omega)
+  simp only [hcons, List.getElem_cons_zero, Nat.add_zero] at hov0
+  have hv0 : ov0.2 = (four ++ lead T[0], T[0].dropWhile Lines.isBlank,
+      (Lines.indentWidth (four ++ lead T[0]) : Int)) := by
+    have : ovs[0]'(by omega) = ov0 := by simp [hcons]
+    rw [← this]
+    have hjo : 0 < s.offs.length := by omega
+    simp only [hovs, List.getElem_zip, List.getElem_map]
+    rw [hL0, lead_four, dropWhile_four]
+  have hvalid := Lines.split_offsets_valid (docOf Ls)
+  have hst0 : ov0.1.lineStart = 0 := by
+    apply hvalid.first
+    have := hov0.1
+    rw [hon.offs] at this
+    exact this
+  have hlastj : T.length - 1 < Ls.length := by omega
+  obtain ⟨oe, hoe, hwe, _, _⟩ := hon.entry hlastj
+  have hoeoff : s.off (T.length - 1) = .ok oe := by simp [BState.off, hoe]
+  have hoe4 : 4 ≤ oe.lineEnd := by
+    have hord := hvalid.ordered oe (by rw [← hon.offs]; exact List.mem_of_getElem? hoe)
+    obtain ⟨p, q, _, hp, hq⟩ := Lines.slice_eq_ok_iff.mp (by unfold Lines.lineWs at hwe; exact hwe)
+    rw [show Ls[T.length - 1] = four ++ T[T.length - 1] by simp [hLs], lead_four] at hq
+    simp [four, show ' '.utf8Size = 1 by decide] at hq
+    omega
+  have hmap0 : Lines.mapOf 4 0 ovs = (0, 4) :: (Lines.mapOf 4 0 ovs).tail := by
+    rw [hcons]
+    simp only [Lines.mapOf, hv0]
+    have hcf := Lines.cut_four (lead T[0])
+    have e : Lines.usizeAsI32 4 = 4 := by decide
+    rw [show four ++ lead T[0] = [' ', ' ', ' ', ' '] ++ lead T[0] from rfl, e, hcf, hst0]
+    simp
+  have hrule : codeRule s false = .ok (true,
+      ({ s with line := T.length }).push ⟨.codeBlock (docOf T ++ ['\n']), some (4, oe.lineEnd), []⟩) := by
+    unfold codeRule
+    have hs0 : s.line = 0 := by rw [hs]; rfl
+    have hblk : s.blkIndent = 0 := hon.blk
+    simp only [Bool.false_eq_true, if_false, hs0, hli, ok_bind]
+    rw [if_neg (by omega)]
+    simp only [Nat.zero_add, hscan, ok_bind, show 4 + s.blkIndent = 4 by omega]
+    have hgl' : BState.getLines { s with line := T.length } 0 T.length 4 false
+        = .ok (content, Lines.mapOf 4 0 ovs) := by
+      simp [BState.getLines, hgl, liftL]
+    rw [hgl']
+    simp only [ok_bind]
+    rw [hmap0]
+    simp only [psub, show 1 ≤ T.length by omega, if_true, ok_bind]
+    have hoff' : BState.off { s with line := T.length } (T.length - 1) = .ok oe := hoeoff
+    rw [hoff']
+    simp only [ok_bind]
+    rw [if_neg (by omega), hc]
+    rfl
+  refine ⟨_, (4, oe.lineEnd), hrule, rfl, ?_, ?_⟩
+  · simp [BState.push, hmax]
+  · simp [BState.push, hs, BState.fresh]
+
+instance (l : List Char) : Decidable (NoTerm l) := by unfold NoTerm; infer_instance
+
+/-- three backticks; two spaces + `a`, two backticks (too short to close), tab + `b`; three backticks -/
+example : ∃ s' r, fenceRule (BState.fresh (docOf (fenceLine '`' 3 ::
+      [[' ', ' ', 'a'], ['`', '`'], ['\t', 'b']] ++ [fenceLine '`' 3])) .root []) false = .ok (true, s') ∧
+    s'.line = 5 ∧ s'.line = s'.lineMax ∧
+    s'.children = [⟨.codeFence [] '`' 3 [' ', ' ', 'a', '\n', '`', '`', '\n', '\t', 'b', '\n'], some r, []⟩] :=
+  fence_verbatim '`' (.inl rfl) 3 (by omega) _ (by decide) (by decide) .root []
+/-- the precondition is needed: a line of three markers closes the fence -/
+example : closes '`' 3 [' ', '`', '`', '`', ' '] = true := by decide
+/-- `a`, an empty line, tab + `b`, each behind four spaces -/
+example : ∃ s' r, codeRule (BState.fresh (docOf ([['a'], [], ['\t', 'b']].map (four ++ ·))) .root []) false
+      = .ok (true, s') ∧ s'.line = 3 ∧ s'.line = s'.lineMax ∧
+    s'.children = [⟨.codeBlock (['a', '\n', '\n', '\t', 'b'] ++ ['\n']), some r, []⟩] :=
+  indented_verbatim [['a'], [], ['\t', 'b']] (by decide) (by decide) (by decide) (by decide) .root []
 
 end MdIt.Block
